@@ -2,10 +2,13 @@
 // ways (prefix:"key", value:"${key}", prop:"key"), plus literal value tags, and reports the bound
 // field rendered canonically (type-tagged), together with what Configure.Get(key) returned.
 //
-// stdin : {"cases":[{id, kind:"key"|"lit", yaml, key, args, text, type:<T>}]}
+// stdin : {"cases":[{id, kind:"key"|"lit", yaml, key, args, text, type:<T>, pre:<fval>|null}]}
+//         pre = the value the bound field holds BEFORE App.Run (a constructor default); with pre set, every route
+//         runs on a component whose field was pre-filled, and one more run ("fresh": the prefix route, for a literal
+//         the value route) binds the same thing into a zero component
 //         <T> = {"k":"string"|"bool"|"int"|"uint"|"float"|"any"|"ptr"|"slice"|"map"|"struct",
 //                "bits":8|16|32|64|0 (0 = int/uint), "e":<T>, "f":[{"go":"Name","tag":"yaml name or empty","t":<T>}]}
-// stdout: @@JSON {"outs":[{id, get:<cval>|null, prefix:<obs>, value:<obs>, prop:<obs>}]}
+// stdout: @@JSON {"outs":[{id, get:<cval>|null, prefix:<obs>, value:<obs>, prop:<obs>, fresh:<obs>, pre:<fval> read back}]}
 //         <obs>  = {"o":"ok","f":<fval>} | {"o":"err","d":detail} | {"o":"panic","d":detail} | {"o":"hang"} | null (route not run)
 //         <fval> = {"S":hex} {"B":bool} {"I":"dec"} {"F":"shortest float text"} {"N":1} {"P":fval} {"L":[fval]}
 //                  {"M":[[hexkey,fval]...]} (keys sorted) {"T":[[matchname-hex,fval]...]} {"A":<cval>}
@@ -57,6 +60,7 @@ type Case struct {
 	Args string   `json:"args"` // "" or ",required=false"
 	Text string   `json:"text"` // literal: the whole tag text
 	Type TypeSpec `json:"type"`
+	Pre  any      `json:"pre"` // <fval> to put into the field before Run (nil = zero component)
 }
 
 type Out struct {
@@ -65,6 +69,8 @@ type Out struct {
 	Prefix any `json:"prefix"`
 	Value  any `json:"value"`
 	Prop   any `json:"prop"`
+	Fresh  any `json:"fresh"` // pre-filled cases: the same binding into a zero component
+	Pre    any `json:"pre"`   // pre-filled cases: the pre-filled field as rendered before Run
 }
 
 type Input struct {
@@ -234,6 +240,138 @@ func canonField(v reflect.Value, t *TypeSpec) any {
 	panic("bad type kind " + t.K)
 }
 
+// anyOf builds the dynamically typed value a <cval> describes (ints as int, floats as float64)
+func anyOf(spec any) any {
+	m, ok := spec.(map[string]any)
+	if !ok {
+		panic("bad cval spec")
+	}
+	if _, ok := m["n"]; ok {
+		return nil
+	}
+	if b, ok := m["b"]; ok {
+		return b.(bool)
+	}
+	if i, ok := m["i"]; ok {
+		n, err := strconv.ParseInt(i.(string), 10, 64)
+		if err != nil {
+			panic(err)
+		}
+		return int(n)
+	}
+	if f, ok := m["f"]; ok {
+		x, err := strconv.ParseFloat(f.(string), 64)
+		if err != nil {
+			panic(err)
+		}
+		return x
+	}
+	if h, ok := m["s"]; ok {
+		b, err := hex.DecodeString(h.(string))
+		if err != nil {
+			panic(err)
+		}
+		return string(b)
+	}
+	if l, ok := m["l"]; ok {
+		out := make([]any, 0)
+		for _, x := range l.([]any) {
+			out = append(out, anyOf(x))
+		}
+		return out
+	}
+	if kv, ok := m["m"]; ok {
+		out := map[string]any{}
+		for _, e := range kv.([]any) {
+			pair := e.([]any)
+			k, err := hex.DecodeString(pair[0].(string))
+			if err != nil {
+				panic(err)
+			}
+			out[string(k)] = anyOf(pair[1])
+		}
+		return out
+	}
+	panic("bad cval spec")
+}
+
+// fill stores the value an <fval> describes into v (of the type t describes): the constructor default of a field
+func fill(v reflect.Value, t *TypeSpec, spec any) {
+	m, ok := spec.(map[string]any)
+	if !ok {
+		panic("bad fval spec")
+	}
+	unhex := func(x any) string {
+		b, err := hex.DecodeString(x.(string))
+		if err != nil {
+			panic(err)
+		}
+		return string(b)
+	}
+	if _, isNil := m["N"]; isNil {
+		v.Set(reflect.Zero(v.Type()))
+		return
+	}
+	switch t.K {
+	case "string":
+		v.SetString(unhex(m["S"]))
+	case "bool":
+		v.SetBool(m["B"].(bool))
+	case "int":
+		n, err := strconv.ParseInt(m["I"].(string), 10, 64)
+		if err != nil {
+			panic(err)
+		}
+		v.SetInt(n)
+	case "uint":
+		n, err := strconv.ParseUint(m["I"].(string), 10, 64)
+		if err != nil {
+			panic(err)
+		}
+		v.SetUint(n)
+	case "float":
+		x, err := strconv.ParseFloat(m["F"].(string), 64)
+		if err != nil {
+			panic(err)
+		}
+		v.SetFloat(x)
+	case "any":
+		a := anyOf(m["A"])
+		if a == nil {
+			v.Set(reflect.Zero(v.Type()))
+		} else {
+			v.Set(reflect.ValueOf(a))
+		}
+	case "ptr":
+		p := reflect.New(v.Type().Elem())
+		fill(p.Elem(), t.E, m["P"])
+		v.Set(p)
+	case "slice":
+		items := m["L"].([]any)
+		sl := reflect.MakeSlice(v.Type(), len(items), len(items))
+		for i, x := range items {
+			fill(sl.Index(i), t.E, x)
+		}
+		v.Set(sl)
+	case "map":
+		mp := reflect.MakeMap(v.Type())
+		for _, e := range m["M"].([]any) {
+			pair := e.([]any)
+			ev := reflect.New(v.Type().Elem()).Elem()
+			fill(ev, t.E, pair[1])
+			mp.SetMapIndex(reflect.ValueOf(unhex(pair[0])), ev)
+		}
+		v.Set(mp)
+	case "struct":
+		kids := m["T"].([]any)
+		for i := range t.F {
+			fill(v.Field(i), &t.F[i].T, kids[i].([]any)[1])
+		}
+	default:
+		panic("bad type kind " + t.K)
+	}
+}
+
 func clip(s string) string {
 	if len(s) > 240 {
 		return s[len(s)-240:]
@@ -242,12 +380,16 @@ func clip(s string) string {
 }
 
 // one start of the real App with one component holding one tagged field
-func runRoute(yaml string, ft reflect.Type, spec *TypeSpec, tag string) any {
+// (pre != nil: the field holds that value when the component is registered)
+func runRoute(yaml string, ft reflect.Type, spec *TypeSpec, tag string, pre any) any {
 	var holder reflect.Value
 	var runErr error
 	p := hx.Guard(func() {
 		st := reflect.StructOf([]reflect.StructField{{Name: "F", Type: ft, Tag: reflect.StructTag(tag)}})
 		holder = reflect.New(st)
+		if pre != nil {
+			fill(holder.Elem().Field(0), spec, pre)
+		}
 		a := app.NewApp()
 		runErr = a.Run(app.SetConfigLoader(loader.NewRawLoader([]byte(yaml))), app.SetComponents(holder.Interface()))
 	})
@@ -276,8 +418,23 @@ func runCase(c Case) Out {
 		bad := map[string]any{"o": "panic", "d": "harness: cannot build the field type: " + clip(p)}
 		return Out{ID: c.ID, Get: map[string]any{"x": "bad type"}, Prefix: bad, Value: bad, Prop: bad}
 	}
+	if c.Pre != nil {
+		// the harness's own reading of the pre-filled field (what the case says the field held before Run)
+		p := hx.Guard(func() {
+			v := reflect.New(ft).Elem()
+			fill(v, &c.Type, c.Pre)
+			out.Pre = canonField(v, &c.Type)
+		})
+		if p != "" {
+			bad := map[string]any{"o": "panic", "d": "harness: cannot pre-fill the field: " + clip(p)}
+			return Out{ID: c.ID, Get: map[string]any{"x": "bad prefill"}, Prefix: bad, Value: bad, Prop: bad, Fresh: bad}
+		}
+	}
 	if c.Kind == "lit" {
-		out.Value = runRoute(c.Yaml, ft, &c.Type, structTag("value", c.Text))
+		out.Value = runRoute(c.Yaml, ft, &c.Type, structTag("value", c.Text), c.Pre)
+		if c.Pre != nil {
+			out.Fresh = runRoute(c.Yaml, ft, &c.Type, structTag("value", c.Text), nil)
+		}
 		return out
 	}
 	p := hx.Guard(func() {
@@ -291,9 +448,12 @@ func runCase(c Case) Out {
 	if p != "" {
 		out.Get = map[string]any{"x": "get failed: " + clip(p)}
 	}
-	out.Prefix = runRoute(c.Yaml, ft, &c.Type, structTag("prefix", c.Key+c.Args))
-	out.Value = runRoute(c.Yaml, ft, &c.Type, structTag("value", "${"+c.Key+"}"+c.Args))
-	out.Prop = runRoute(c.Yaml, ft, &c.Type, structTag("prop", c.Key+c.Args))
+	out.Prefix = runRoute(c.Yaml, ft, &c.Type, structTag("prefix", c.Key+c.Args), c.Pre)
+	out.Value = runRoute(c.Yaml, ft, &c.Type, structTag("value", "${"+c.Key+"}"+c.Args), c.Pre)
+	out.Prop = runRoute(c.Yaml, ft, &c.Type, structTag("prop", c.Key+c.Args), c.Pre)
+	if c.Pre != nil {
+		out.Fresh = runRoute(c.Yaml, ft, &c.Type, structTag("prefix", c.Key+c.Args), nil)
+	}
 	return out
 }
 
@@ -350,7 +510,11 @@ func main() {
 				outs = append(outs, one...)
 			} else {
 				h := map[string]any{"o": "hang"}
-				outs = append(outs, Out{ID: c.ID, Get: map[string]any{"x": "hang"}, Prefix: h, Value: h, Prop: h})
+				o := Out{ID: c.ID, Get: map[string]any{"x": "hang"}, Prefix: h, Value: h, Prop: h}
+				if c.Pre != nil {
+					o.Fresh = h
+				}
+				outs = append(outs, o)
 			}
 		}
 	}
